@@ -24,9 +24,10 @@ ASSUMPTIONS = ["oracle = the library's own Container operations (differential at
                "overlapping same-plate regions have no well-by-well reading: excluded here, C01 owns them",
                "instruction text of wells is not compared here (C19)"]
 def shard_config(shard, tier):
-    """one of eight shards runs with solids and enzymes that take no volume (documented setting inf): wells can then
+    """two of eight shards run with solids (and enzymes) that take no volume (documented setting inf): wells can then
     hold material at zero volume"""
-    return {5: {'default_solid_density': float('inf'), 'default_enzyme_density': float('inf')}}.get(shard % 8)
+    return {5: {'default_solid_density': float('inf'), 'default_enzyme_density': float('inf')},
+            2: {'default_solid_density': float('inf')}}.get(shard % 8)
 
 
 REQUIRED_CLASSES = {'quick': ['kind:transfer', 'kind:remove', 'kind:fill_to', 'form:1toN', 'form:Nto1', 'recipe'],
@@ -289,7 +290,7 @@ class Local(Monitor):
 
 PROFILE = {'weights': {'transfer': 6, 'container': 2, 'plate': 2, 'remove': 2, 'fill_to': 3, 'slice': 2},
            'q_modes': ['frac'] * 8 + ['over', 'whole'], 'self_transfer': False,
-           'fill_modes': ['fit'] * 7 + ['below', 'over'], 'initial_plates': 2}
+           'fill_modes': ['fit'] * 7 + ['below', 'over'], 'initial_plates': 2, 'initial_slices': 1}
 
 
 def run(col):
